@@ -330,7 +330,9 @@ fn dkim_canonicalize_headers<'a>(
     let mut covered_headers = Headers::new();
     for name in headers_list {
         if let Some(h) = mail_headers.find_header(name) {
-            let name = dkim_canonicalize_header_tag(name, canonicalization);
+            // The name as it is written in the message, not as the
+            // configuration spells it: "simple" presents the field unchanged
+            let name = dkim_canonicalize_header_tag(h.get_name(), canonicalization);
             covered_headers.insert_raw(HeaderValue::dangerous_new_pre_encoded(
                 HeaderName::new_from_ascii(name.into()).unwrap(),
                 h.get_raw().into(),
